@@ -1,5 +1,6 @@
 //! Scenario data for C11 (item lists, scripts, closure parameters), the two "sides" a catalogue
 //! expression is instantiated on (real pulls vs. std iterators), and type erasure of the pulls.
+#![allow(dead_code)]
 
 use std::any::Any;
 use std::marker::PhantomData;
